@@ -184,3 +184,81 @@ func (c *Ctx) acceptStep(rum *ssa.Function) (acc *ssa.Function, f fill, outerSiz
 	}
 	return nil, fill{}, nil, false
 }
+
+// suffixOperand: v is, by the contract of the standard library, a suffix of the slice it returns here (the whole of
+// it, or what is left after a prefix was cut off): bytes.CutPrefix (#0), bytes.TrimPrefix, bytes.TrimLeft(Func).
+func suffixOperand(v ssa.Value) (ssa.Value, bool) {
+	if ex, ok := v.(*ssa.Extract); ok && ex.Index == 0 {
+		if call, ok := ex.Tuple.(*ssa.Call); ok && core.FuncIs(core.StaticCallee(call), "bytes", "CutPrefix") {
+			return call.Call.Args[0], true
+		}
+	}
+	if ex, ok := v.(*ssa.Extract); ok && ex.Index == 1 {
+		// bytes.Cut: `after` is what follows the separator (nil when there is none)
+		if call, ok := ex.Tuple.(*ssa.Call); ok && core.FuncIs(core.StaticCallee(call), "bytes", "Cut") {
+			return call.Call.Args[0], true
+		}
+	}
+	if call, ok := v.(*ssa.Call); ok {
+		f := core.StaticCallee(call)
+		if core.FuncIs(f, "bytes", "TrimPrefix") || core.FuncIs(f, "bytes", "TrimLeft") || core.FuncIs(f, "bytes", "TrimLeftFunc") {
+			return call.Call.Args[0], true
+		}
+	}
+	return nil, false
+}
+
+// advanceOfOwnWindow: the value stored to a reader's Msg is that same reader's current window with a prefix removed
+// (w[a:], CutPrefix(w, _), ...): the window only moves forward, which consumes bytes exactly as an accessor does.
+func advanceOfOwnWindow(st *ssa.Store) bool {
+	fr, ok := core.FieldOfAddr(st.Addr)
+	if !ok {
+		return false
+	}
+	v := st.Val
+	steps := 0
+	for i := 0; i < 6; i++ {
+		if sl, isSl := v.(*ssa.Slice); isSl && sl.High == nil && sl.Max == nil {
+			v = sl.X
+			steps++
+			continue
+		}
+		if x, isSuf := suffixOperand(v); isSuf {
+			v = x
+			steps++
+			continue
+		}
+		break
+	}
+	u, isLoad := v.(*ssa.UnOp)
+	if !isLoad || steps == 0 {
+		return false
+	}
+	fr2, ok := core.FieldOfValue(u)
+	if !ok || fr2.Name != fr.Name || fr2.Struct != fr.Struct || !(fr2.Base == fr.Base || sameFieldPath(u.X, st.Addr)) {
+		return false
+	}
+	// the load is the current window: no store to the field between the load and this store in the block
+	if u.Block() != st.Block() {
+		return false
+	}
+	for i := core.InstrIndex(u) + 1; i < core.InstrIndex(st); i++ {
+		if ci, isCall := st.Block().Instrs[i].(ssa.CallInstruction); isCall {
+			if f := core.StaticCallee(ci); f == nil || f.Pkg == nil || f.Pkg.Pkg.Path() != "bytes" {
+				return false
+			}
+		}
+		if _, isSt := st.Block().Instrs[i].(*ssa.Store); isSt {
+			return false
+		}
+	}
+	return true
+}
+
+// sameFieldPath: two field addresses name the same field of the same object (r.reader.Msg read twice: go/ssa does not
+// share the intermediate loads).
+func sameFieldPath(a, b ssa.Value) bool {
+	ra, pa := pathOf(a)
+	rb, pb := pathOf(b)
+	return ra == rb && pa == pb && pa != ""
+}
